@@ -95,7 +95,7 @@ def jobs_for(pid, tier):
         J.append(("names", base_consts(["get_identifier", "get_operator", "get_suffix", "get_conversion",
                                         "get_ctor_name", "get_dtor_name", "get_logogram"],
                                        3 if q else 4, types=(12,) if q else (12, 3), ids=(49,),
-                                       words=("foo", "int") if q else ("foo", "int", "+"))))
+                                       words=("foo", "int", "") if q else ("foo", "int", "+", ""))))
         J.append(("atoms", base_consts(["get_symbol", "get_label", "get_this", "get_literal", "make_literal",
                                         "get_template_id", "get_identifier"],
                                        3 if q else 4, types=(12,), ids=(49, 67), words=("foo", "default"),
